@@ -24,8 +24,10 @@ func init() {
 			ID: "C12", Level: "exploration", Risky: true,
 			Rule:        "Go types x values: every one-field struct over 37 field types x 8 tag options, every two-field struct over 20 field types x 8 tag options per field (built at run time with reflect.StructOf), every field type plain and wrapped in slice / map / pointer / interface, pointer depth 0-3, and ~30 compiled seed types (named types, value- and pointer-receiver Folder and IsZeroer, inline folders/interfaces/pointers, registered custom folders, recursive types, unsupported kinds) x a value alphabet per field (zero, empty non-nil, non-empty, boundary numbers), folded by value and by pointer with the real Fold; plus field-count thresholds (0-24 fields), two-level inlining at zero and non-zero offsets, 16 further tag spellings, container/string sizes 0-33, nesting up to 17; plus one long-lived Iterator: value a folded into a visitor that fails at event k (every k), then value b folded on the same Iterator (every pair over the inline/custom-folder seeds); oracle: the value of the emitted events == the executable model of the documented tag rules (model.RefFold), or an error where the model refuses the type; a case = (type descriptor, value, by-value/by-pointer); non-trivial = struct with at least one tagged or composite field",
 			Assumptions: []string{"struct types are limited to what reflect.StructOf can build plus the compiled seeds (method-bearing and named types only as seeds)", "where the statement is silent (non-nil pointer/interface whose target is empty by size under omitempty) both outcomes are accepted and counted as ambiguous_accepted", "map-derived members compared unordered"},
-			Families:    func(tier string) []engine.Family { return append(goFamilies(tier, c12Body), c12HistoryFamilies(tier)...) },
-			Require:     []string{"folds_compared", "refusals_checked", "folds_after_failed_fold_compared"},
+			Families: func(tier string) []engine.Family {
+				return append(goFamilies(tier, c12Body), c12HistoryFamilies(tier)...)
+			},
+			Require: []string{"folds_compared", "refusals_checked", "folds_after_failed_fold_compared"},
 		})
 	})
 }
